@@ -1,0 +1,119 @@
+//go:build verif
+
+// Verification-only exports (build tag `verif`) for the table-backed properties:
+// the public<->private converter pairs of u_public.go as opaque closures, and the private
+// ClientHello codec.  Add-only: nothing here is compiled without the tag and no existing line
+// of the package changes.  The harness fills and reads the (unexported) fields by reflection.
+
+package tls
+
+// VerifConverterPair is one public<->private converter pair of u_public.go.
+//
+// NewPublic / NewPrivate return a pointer to a zero value of the public / private type
+// (for the list converters a pointer to a nil slice).  ToPrivate takes what NewPublic returns and
+// gives back a pointer of the kind NewPrivate returns (the converter's result), and vice versa.
+type VerifConverterPair struct {
+	Name       string
+	NewPublic  func() any
+	NewPrivate func() any
+	ToPrivate  func(pub any) any
+	ToPublic   func(priv any) any
+}
+
+// VerifConverterPairs lists the converter pairs for handshake messages, key shares, PSK
+// identities, cipher-suite and key views.
+func VerifConverterPairs() []VerifConverterPair {
+	return []VerifConverterPair{
+		{
+			Name:       "ClientHelloMsg",
+			NewPublic:  func() any { return &PubClientHelloMsg{} },
+			NewPrivate: func() any { return &clientHelloMsg{} },
+			ToPrivate:  func(p any) any { return p.(*PubClientHelloMsg).getPrivatePtr() },
+			ToPublic:   func(p any) any { return p.(*clientHelloMsg).getPublicPtr() },
+		},
+		{
+			Name:       "ServerHelloMsg",
+			NewPublic:  func() any { return &PubServerHelloMsg{} },
+			NewPrivate: func() any { return &serverHelloMsg{} },
+			ToPrivate:  func(p any) any { return p.(*PubServerHelloMsg).getPrivatePtr() },
+			ToPublic:   func(p any) any { return p.(*serverHelloMsg).getPublicPtr() },
+		},
+		{
+			Name:       "CertificateRequestMsgTLS13",
+			NewPublic:  func() any { return &CertificateRequestMsgTLS13{} },
+			NewPrivate: func() any { return &certificateRequestMsgTLS13{} },
+			ToPrivate:  func(p any) any { return p.(*CertificateRequestMsgTLS13).toPrivate() },
+			ToPublic:   func(p any) any { return p.(*certificateRequestMsgTLS13).toPublic() },
+		},
+		{
+			Name:       "KeyShares",
+			NewPublic:  func() any { return &[]KeyShare{} },
+			NewPrivate: func() any { return &[]keyShare{} },
+			ToPrivate:  func(p any) any { r := KeyShares(*p.(*[]KeyShare)).ToPrivate(); return &r },
+			ToPublic:   func(p any) any { r := keyShares(*p.(*[]keyShare)).ToPublic(); return &r },
+		},
+		{
+			Name:       "PskIdentities",
+			NewPublic:  func() any { return &[]PskIdentity{} },
+			NewPrivate: func() any { return &[]pskIdentity{} },
+			ToPrivate:  func(p any) any { r := PskIdentities(*p.(*[]PskIdentity)).ToPrivate(); return &r },
+			ToPublic:   func(p any) any { r := pskIdentities(*p.(*[]pskIdentity)).ToPublic(); return &r },
+		},
+		{
+			Name:       "CipherSuite",
+			NewPublic:  func() any { return &PubCipherSuite{} },
+			NewPrivate: func() any { return &cipherSuite{} },
+			ToPrivate:  func(p any) any { return p.(*PubCipherSuite).getPrivatePtr() },
+			ToPublic:   func(p any) any { r := p.(*cipherSuite).getPublicObj(); return &r },
+		},
+		{
+			Name:       "CipherSuiteTLS13",
+			NewPublic:  func() any { return &PubCipherSuiteTLS13{} },
+			NewPrivate: func() any { return &cipherSuiteTLS13{} },
+			ToPrivate:  func(p any) any { return p.(*PubCipherSuiteTLS13).toPrivate() },
+			ToPublic:   func(p any) any { return p.(*cipherSuiteTLS13).toPublic() },
+		},
+		{
+			Name:       "TicketKey",
+			NewPublic:  func() any { return &TicketKey{} },
+			NewPrivate: func() any { return &ticketKey{} },
+			ToPrivate:  func(p any) any { r := (*p.(*TicketKey)).ToPrivate(); return &r },
+			ToPublic:   func(p any) any { r := (*p.(*ticketKey)).ToPublic(); return &r },
+		},
+		{
+			Name:       "TicketKeys",
+			NewPublic:  func() any { return &[]TicketKey{} },
+			NewPrivate: func() any { return &[]ticketKey{} },
+			ToPrivate:  func(p any) any { r := TicketKeys(*p.(*[]TicketKey)).ToPrivate(); return &r },
+			ToPublic:   func(p any) any { r := ticketKeys(*p.(*[]ticketKey)).ToPublic(); return &r },
+		},
+		{
+			Name:       "KemPrivateKey",
+			NewPublic:  func() any { return &KemPrivateKey{} },
+			NewPrivate: func() any { return &kemPrivateKey{} },
+			ToPrivate:  func(p any) any { return p.(*KemPrivateKey).ToPrivate() },
+			ToPublic:   func(p any) any { return p.(*kemPrivateKey).ToPublic() },
+		},
+		{
+			Name:       "KeySharePrivateKeys",
+			NewPublic:  func() any { return &KeySharePrivateKeys{} },
+			NewPrivate: func() any { return &keySharePrivateKeys{} },
+			ToPrivate:  func(p any) any { return p.(*KeySharePrivateKeys).ToPrivate() },
+			ToPublic:   func(p any) any { return p.(*keySharePrivateKeys).ToPublic() },
+		},
+	}
+}
+
+// VerifClientHelloUnmarshal runs the private parser (clientHelloMsg.unmarshal) and returns the
+// message for field inspection by reflection; nil when the parser rejects the bytes.
+func VerifClientHelloUnmarshal(data []byte) any {
+	m := &clientHelloMsg{}
+	if !m.unmarshal(data) {
+		return nil
+	}
+	return m
+}
+
+// VerifClientHelloMarshal runs clientHelloMsg.marshal on a message obtained from
+// VerifClientHelloUnmarshal (or from a converter).
+func VerifClientHelloMarshal(m any) ([]byte, error) { return m.(*clientHelloMsg).marshal() }
